@@ -721,6 +721,24 @@ fn gen_targeted(rng: &mut Rng) -> Case {
   if off != 0 && off < 330 {
     utxos.push((3, rng.range(330 - off, 330 - off + 300)));
   }
+  // variant aimed at the re-estimating loop: the cardinal outputs together bring the recipient
+  // output within a few sat of min_value + fee(vsize with all of them as inputs)
+  if rng.chance(1, 2) {
+    let fee_all = rate.fee(dummy_vsize(n_in + n_extra, &outs)).to_sat();
+    let need = (min_value + fee_all).saturating_sub(out_v - off);
+    let mut left = need;
+    for i in 0..n_extra {
+      let share = if i + 1 == n_extra { left } else { rng.below(left + 1) };
+      left -= share;
+      let wiggle = if i + 1 == n_extra { *rng.pick(&[0i64, 0, 1, -1, 2, -2, 330, 331]) } else { 0 };
+      utxos.push((20 + i as u64, share.saturating_add_signed(wiggle).max(1)));
+    }
+    utxos.sort();
+    c.utxos = utxos;
+    c.out_id = 10;
+    c.out_off = off;
+    return c;
+  }
   // split the deficit over n_extra cardinal outputs, each within a few sat of deficit_i + add
   let mut left = deficit;
   for i in 0..n_extra {
